@@ -213,7 +213,7 @@ def snapshot(m, d, fields=None):
   obs["_njmax"] = int(d.njmax)
   obs["_naconmax"] = int(d.naconmax)
   obs["_nacon_raw"] = int(d.nacon.numpy()[0])
-  obs["_dt"] = float(np.asarray(m.opt.timestep.numpy()).ravel()[0])
+  obs["_dt"] = [float(x) for x in np.asarray(m.opt.timestep.numpy()).ravel()]  # per-world timestep (batchable option)
   return obs
 
 
@@ -256,8 +256,8 @@ def world_view(obs, w, contacts=True, efc=True):
     v["actuator_moment"] = dense
     for k in ("moment_rowadr", "moment_rownnz", "moment_colind"):
       v["_layout." + k] = v.pop(k)
-  if "_dt" in obs:
-    v["_dt"] = np.array([obs["_dt"]], dtype=np.float64)
+  if "_dt" in obs:  # not an output: only read by tol_diff (velocity tolerance), skipped by every comparison
+    v["_dt"] = np.array([obs["_dt"][w % len(obs["_dt"])]], dtype=np.float64)
   if contacts:
     c = obs["contact"]
     sel = c["worldid"] == w
@@ -318,7 +318,7 @@ def diff_views(va, vb, skip=()):
   """List of (field, first_diff) for fields differing bitwise between two world views."""
   out = []
   for k in va:
-    if k in skip or k not in vb:
+    if k in skip or k not in vb or k == "_dt":
       continue
     if not bits_equal(va[k], vb[k]):
       out.append((k, first_diff(va[k], vb[k])))
